@@ -9,6 +9,9 @@ from .. import core, refmodel as R
 from ..harness import Session
 
 DESTS = ("unknown", "awake", "sleeping")
+# more ways of being a sleeping destination: a repeater-type node restored from persistence as sleeping, and a node that
+# announced sleep and then presents itself again as a repeater before its next wake (reduced message list)
+DESTS_EXTRA = ("sleeping-restored-repeater", "sleeping-restored", "sleeping-then-repeater")
 BUFFERS = (None, True, False)  # None = default argument
 NODE = 12
 BYSTANDER = 1  # another sleeping node whose decimal id is a prefix of NODE's
@@ -25,9 +28,11 @@ def build(version: str, dest: str) -> Session:
     else:
         s.gateway.nodes[BYSTANDER].sleeping = True
     if dest != "unknown":
-        s.line(f"{NODE};255;0;0;17;{version}")
+        s.line(f"{NODE};255;0;0;{18 if dest == 'sleeping-restored-repeater' else 17};{version}")
         s.line(f"{NODE};3;0;0;3;")
-        if dest == "sleeping":
+        if dest in ("sleeping-restored-repeater", "sleeping-restored"):
+            s.gateway.nodes[NODE].sleeping = True  # as loaded from a persistence file of an earlier session
+        if dest in ("sleeping", "sleeping-then-repeater"):
             wt = R.wake_type(version)
             if wt is not None:
                 out = s.line(f"{NODE};255;3;0;{wt};0")
@@ -44,7 +49,7 @@ class WakeResult:
         self.early = early  # what was written before the destination's own wake
 
 
-def wake(s: Session, version: str, echo_of: tuple | None = None):
+def wake(s: Session, version: str, echo_of: tuple | None = None, dest: str = "sleeping"):
     """Traffic that is not the destination's wake (its own reports, the bystander's wake), then the next
     wake of the destination. Under 1.x a wake can only exist after a 2.2 version report."""
     if not R.is2x(version):
@@ -58,6 +63,8 @@ def wake(s: Session, version: str, echo_of: tuple | None = None):
     if echo_of is not None and echo_of[2] == 1:
         # the destination echoes an older command for the same child and value type (ack flag set)
         traffic.insert(1, f"{echo_of[0]};{echo_of[1]};1;1;{echo_of[4]};older")
+    if dest == "sleeping-then-repeater":
+        traffic = [f"{NODE};255;0;0;18;{version}", f"{NODE};3;0;0;3;"] + traffic
     for line in traffic:
         early += s.line(line).writes
     out = s.line(f"{NODE};255;3;0;{R.wake_type(version)};0")
@@ -109,7 +116,7 @@ def check_case(version: str, f: tuple, buf, dest: str) -> list:
     if dest == "unknown":
         bad("silently-discarded", "returned normally, wrote nothing, and the destination is not a known node (no wake can release it)")
         return viols
-    w = wake(s, version, f)
+    w = wake(s, version, f, dest)
     n = w.writes.count(line)
     if line in w.early:
         bad("released-by-other-traffic", f"held, but written before the destination's own wake (by its non-wake reports or another node's wake): {w.early}")
@@ -148,7 +155,7 @@ def check_sequence(version: str, seq: list, buf, dest: str) -> list:
             viols.append((f"C12|seq|buffer={buf}|dest={dest}|silently-discarded", f"[{version}] sends {seq}: {pending} neither written nor raised, destination unknown",
                           {"version": version, "seq": [list(x) for x in seq], "buffer": buf, "dest": dest}))
             return viols
-        w = wake(s, version)
+        w = wake(s, version, None, dest)
         # for one key the newest value supersedes older parked ones; every key must be released
         last_per_key = {}
         for line in pending:
@@ -190,7 +197,7 @@ def job(j):
         for buf in BUFFERS:
             n += 1
             viols += check_sequence(version, seq, buf, dest)
-    for f in cases(version):
+    for f in (cases(version) if dest in DESTS else [c for c in cases(version) if c[4] in (0, 2, 6, 13, 18)]):
         for buf in BUFFERS:
             n += 1
             v = check_case(version, f, buf, dest)
@@ -205,6 +212,58 @@ def job(j):
                 (f"C12|non-message|{type(obj).__name__}", f"[{version}] send({obj!r}) gave {out.describe()}, expected the invalid-message error", {"version": version, "obj": repr(obj), "dest": dest, "nonmsg": True})
             )
     return n, viols
+
+
+def loops_case(version: str) -> list:
+    """One gateway object used by an application that runs its event loop three times in a row (asyncio.run per
+    session): in every session two sends overlap (the first one's transport write is still in flight when the second
+    starts). Each send must end written or with a library error, in every session."""
+    from aiomysensors.gateway import Gateway
+
+    from ..harness import AsyncScriptTransport, drive
+    from ..vloop import VLoop
+
+    viols = []
+    t = AsyncScriptTransport(None)
+    gw = Gateway(t)
+    gw.protocol_version = version
+    t.lines.extend([f"{NODE};255;0;0;17;{version}", f"{NODE};3;0;0;3;"])
+    agen = gw.listen()
+    drive(agen.__anext__())
+    drive(agen.__anext__())
+    for rnd in range(3):
+        loop = VLoop()
+        loop.enter()
+        try:
+            t.loop = loop
+            t.sync = False
+            msgs = [(NODE, 3, 1, 0, 2, f"a{rnd}"), (NODE, 3, 1, 0, 3, f"b{rnd}"), (NODE, 255, 3, 0, 13, f"c{rnd}")]
+            tasks = []
+            for f in msgs:
+                tasks.append(loop.create_task(gw.send(Message(*f))))
+                loop.run_ready()  # the earlier sends are now waiting for their transport writes
+            for _ in range(50):
+                loop.run_ready()
+                if not t.pending_writes:
+                    break
+                t.complete_write(0)
+            loop.run_ready()
+            for f, task in zip(msgs, tasks):
+                line = R.enc(*f)
+                if not task.done():
+                    viols.append((f"C12|loops|cmd={f[2]}|never-finished", f"[{version}] event loop #{rnd} of the application: send({f}) overlapping another send never finished", {"version": version, "loops": True}))
+                elif task.cancelled() or task.exception() is not None:
+                    exc = None if task.cancelled() else task.exception()
+                    if not isinstance(exc, AIOMySensorsError):
+                        viols.append((f"C12|loops|cmd={f[2]}|foreign-exception:{type(exc).__name__}", f"[{version}] event loop #{rnd} of the application: send({f}) overlapping another send ended with {exc!r}", {"version": version, "loops": True}))
+                elif line not in t.written():
+                    viols.append((f"C12|loops|cmd={f[2]}|silently-discarded", f"[{version}] event loop #{rnd}: send({f}) returned normally but {line!r} was not written: {t.written()[-4:]}", {"version": version, "loops": True}))
+            t.sync = True
+        finally:
+            loop.shutdown()
+        if viols:
+            break
+    return viols
 
 
 def race_pass(ctx: core.Ctx):
@@ -229,18 +288,20 @@ def race_pass(ctx: core.Ctx):
 
 
 def run(ctx: core.Ctx) -> core.Report:
-    jobs = [(v, d) for v in R.VERSIONS for d in DESTS]
+    jobs = [(v, d) for v in R.VERSIONS for d in DESTS + DESTS_EXTRA]
     res = core.pmap(job, jobs, ctx.workers, chunksize=1)
     total = sum(r[0] for r in res)
     viols = [core.Violation(k, w, rep) for r in res for k, w, rep in r[1]]
     nrace, rviols = race_pass(ctx)
     total += nrace
     viols += rviols
+    for r in core.pmap(loops_case, list(R.VERSIONS), ctx.workers, chunksize=1):
+        viols += [core.Violation(k, w, rep) for k, w, rep in r]
     cs = cases("2.2")
     cov = {
         "evaluations": total,
         "distinct_nontrivial": total,
-        "rule": "five versions x {presentation,set,req} types 0-60, internal types -1..41, stream types -1..8 (codec-accepted combinations only) x message_buffer default/True/False x destination unknown/awake/sleeping, each on a fresh real gateway; every case is distinct; plus six non-message objects per (version, destination); plus 69 sequences of 2-4 sends (all ordered pairs of 8 message kinds, repeats) per (version, buffering, destination); plus every schedule with <= 2 early firings of three send-during-flush scenarios",
+        "rule": "five versions x {presentation,set,req} types 0-60, internal types -1..41, stream types -1..8 (codec-accepted combinations only) x message_buffer default/True/False x destination unknown/awake/sleeping (and, for a reduced message list, restored-as-sleeping, restored-as-sleeping repeater, sleeping then re-presented as repeater), each on a fresh real gateway; every case is distinct; plus six non-message objects per (version, destination); plus 69 sequences of 2-4 sends (all ordered pairs of 8 message kinds, repeats) per (version, buffering, destination); plus every schedule with <= 2 early firings of three send-during-flush scenarios; plus three overlapping sends in each of three successive event loops on one gateway object",
         "exhaustive": True,
         "bounds": {"messages_per_version": len(cs), "buffers": 3, "destinations": 3},
         "samples": [list(cs[ctx.seed % len(cs)]), list(cs[-1]), "invalid"],
@@ -254,6 +315,9 @@ def run(ctx: core.Ctx) -> core.Report:
 
 
 def replay(data: dict) -> dict:
+    if data.get("loops"):
+        v = loops_case(data["version"])
+        return {"violated": bool(v), "violations": [{"key": k, "what": w} for k, w, _ in v]}
     if data.get("race"):
         from .. import explore
         from . import c09
